@@ -134,10 +134,18 @@ func (hc *HeaderChain) WriteHeader(header *types.Header) error {
 		hash   = header.Hash()
 		number = header.Number.Uint64()
 	)
-	rawdb.WriteHeader(hc.chainDb, header)
+	// The header, its number->hash entry and the head header marker become durable
+	// together: a header that is stored but not canonical would be skipped as "known"
+	// by InsertHeaderChain after a restart and leave a hole in the index for good.
+	batch := hc.chainDb.NewBatch()
+	rawdb.WriteHeader(batch, header)
 	// Extend the canonical chain with the new header
-	rawdb.WriteCanonicalHash(hc.chainDb, hash, number)
-	hc.SetCurrentHeader(header)
+	rawdb.WriteCanonicalHash(batch, hash, number)
+	rawdb.WriteHeadHeaderHash(batch, hash)
+	if err := batch.Write(); err != nil {
+		return err
+	}
+	hc.currentHeader.Store(header)
 	metricsHeadHeaderGauge.Update(int64(number))
 
 	hc.headerCache.Add(hash, header)
@@ -200,7 +208,8 @@ func (hc *HeaderChain) InsertHeaderChain(chain []*types.Header, writeHeader WhCa
 		}
 		// If the header's already known, skip it, otherwise store
 		hash := header.Hash()
-		if hc.HasHeader(hash, header.Number.Uint64()) {
+		// only a header that is already canonical can be skipped
+		if hc.HasHeader(hash, header.Number.Uint64()) && rawdb.ReadCanonicalHash(hc.chainDb, header.Number.Uint64()) == hash {
 			stats.ignored++
 			continue
 		}
